@@ -4,6 +4,19 @@ import json, os
 PROPS = [json.loads(l)['id'] for l in open('/verif/properties.jsonl')]
 
 CLAIMED = {
+ 'C03': dict(
+   category='proof',
+   text=('PARTIAL proof + exact correspondence. Proved in Coq: the index maps fusion is made of are bijections (segment layout: (segment, offset) <-> flat '
+         'position, sound/complete/covering/disjoint; row-major merging of the legs of a product sector, both directions), the fused leg is exactly as large '
+         'as the product sectors that enter it, and the fused tensor obeys the selection rule with the fused charges -- a bijective re-indexing preserves every '
+         'element, hence norms and contractions. The executable model of the fused-leg structure (which product sectors enter, their order and Dslc) must '
+         'reproduce the real fused leg on generated tensors. NOT proved at block level: unfuse(fuse a) = a, masks for mismatched histories, block(): these are '
+         'compared exactly with NumPy (round trips, norm, tensordot/add/vdot over fused vs original legs with equal/overlapping/disjoint sectors, direct sums '
+         'incl. nested ones), and incompatibly fused operands must be rejected with YastnError.'),
+   design_ref='DESIGN.md section 6 C03',
+   note=('Trusted: Coq kernel, no axioms; hand-written structure model tied by correspondence; known finding C03-nested-block (operands whose blocked leg lost '
+         'sectors after blocking) is reported as KNOWN-FINDING only for that structural condition.'),
+   technique='Coq proof (index bijections, dimension accounting) + exact model correspondence + exact NumPy differential checks'),
  'C05': dict(
    category='proof',
    text=('PARTIAL proof + exact correspondence. Proved in Coq for every symmetry, rank, grouping and length: the block sign of swap_gate is '
